@@ -72,6 +72,13 @@ func scenarios(c *vlib.Ctx) []*slib.Scn {
 	for _, v := range []string{"run", "start", "signal"} {
 		add(modules.C15Params{Limit: 2, Tasks: []string{"h-" + v + "-ok", "m-run-ok", "m-start-ok", "l-signal-ok"}}, bound)
 	}
+	// microtasks that log more lines than the log buffer holds while they occupy every slot (the log writer gets its
+	// time slots from the microtask scheduler)
+	add(modules.C15Params{Limit: 2, Tasks: []string{"m-run-chatty", "m-run-chatty"}}, 0)
+	add(modules.C15Params{Limit: 2, Tasks: []string{"m-run-chatty", "l-start-chatty", "m-run-ok"}}, 0)
+	// ... while the other slot stays occupied: the writer gets no time slot and has to be forced to empty the buffer
+	add(modules.C15Params{Limit: 2, Tasks: []string{"m-run-chatty", "m-run-ok"}, Hold: true}, 0)
+	add(modules.C15Params{Limit: 2, Tasks: []string{"l-run-chatty", "m-signal-ok"}, Hold: true}, 0)
 	// panicking microtasks while the error reporting channel is full and unread
 	for _, pr := range []string{"h", "m", "l"} {
 		add(modules.C15Params{Limit: 2, Tasks: []string{pr + "-run-panic", "m-run-ok", pr + "-start-panic"}, FullCh: true}, vlib.Pick(c, 1, 2))
